@@ -152,3 +152,32 @@ Proof.
   rewrite NN, HD, (change_is_either_bit k B) in K. simpl in K. split; [exact K|].
   unfold ifnull_wrapped. now rewrite K.
 Qed.
+
+(** ** table options: the CREATE TABLE of the rebuild carries the options of the desired table *)
+Lemma alterTable_no_create n cs l x : alterTable n cs = POk l -> ~ In (SCreateTable x) l.
+Proof.
+  revert l; induction cs as [|c cs IH]; intros l A H; simpl in A.
+  - inversion A; subst. exact H.
+  - destruct c as [c0|y|y k|a b|i|i|a b|tg]; try discriminate;
+      destruct (alterTable n cs) as [l'|e]; try discriminate; inversion A; subst l; clear A;
+      simpl in H; repeat (destruct H as [H|H]; [discriminate|]); eapply IH; eauto.
+Qed.
+
+Lemma rebuild_keeps_options t m l b x :
+  seg (ModifyTable t m) = POk (l, b) -> In (SCreateTable x) l ->
+  td_name x = new_prefix ++ td_name t /\ td_cols x = td_cols t /\
+  td_strict x = td_strict t /\ td_without_rowid x = td_without_rowid t /\
+  table_options x = table_options t.
+Proof.
+  rewrite seg_modify. destruct (alterable m).
+  - destruct (alterTable _ m) as [l0|e] eqn:E; [|discriminate]. intros H; inversion H; subst. intros Hin.
+    exfalso. eapply alterTable_no_create; eauto.
+  - destruct (copyRows _ _ m) as [cp|e] eqn:E; [|discriminate]. intros H; inversion H; subst. clear H.
+    apply copyRows_spec in E. intros Hin. simpl in Hin.
+    destruct Hin as [Hin|Hin].
+    + inversion Hin; subst x. unfold table_options. simpl. repeat split.
+    + exfalso. apply in_app_or in Hin. destruct Hin as [Hin|Hin].
+      * subst cp. destruct (pairs m _); [contradiction|]. destruct Hin as [Hin|[]]; discriminate.
+      * destruct Hin as [Hin|[Hin|Hin]]; try discriminate.
+        unfold addIndexes in Hin. apply in_map_iff in Hin. destruct Hin as [i [Hi _]]. discriminate.
+Qed.
